@@ -164,4 +164,19 @@ Section EquivIter.
   Proof.
     unfold runm. evi. cbv [into_len_at bind ret lift_m]. symr.
   Qed.
+
+  (* IntoIter::as_slice: empty for a never-allocated vector, else the elements from the cursor on (the
+     embedded vector's length counts what is left) -- what Run.v computes for `asslice` on an IntoIter *)
+  Lemma into_as_slice_equiv i s :
+    runm into_iter__IntoIter__as_slice_ast [iter_val i] s =
+    lift_m (t <- into_of i ;; into_as_slice cfg t) (fun es => VCtor "Slice" (map VInt es)) s.
+  Proof.
+    unfold runm, eval_fn.
+    cbv -[Z.add Z.sub Z.mul Z.div Z.modulo Z.eqb Z.ltb Z.leb Z.max Z.min Z.land W64 ISIZE_MAX
+          release esz ealign needs_drop is_pow2 layout_ok
+          is_default len vec_handle hdr_block expose_slice map
+          get_block put_block set_handle into_of
+          nth_error heap vecs].
+    cbv [into_as_slice bind ret lift_m]. symr.
+  Qed.
 End EquivIter.
